@@ -103,6 +103,10 @@ def jobs(tier, seed):
         for game in ('FixedLimitSevenCardStud', 'FixedLimitSevenCardStudHighLowSplitEightOrBetter', 'FixedLimitRazz'):
             for trim in (True, False):
                 out.append(_j(game, C.stud(stacks, game=game, trim=trim), dev_bound=3 if not thorough else 4))
+    # a bring-in larger than one chip, so that it can be posted in part (stack between the ante and ante + bring-in)
+    for stacks in [(2, 9), (9, 2), (2, 2), (2, 9, 9), (9, 2, 9), (9, 9, 2), (2, 2, 2), (3, 2, 9)]:
+        for game in ('FixedLimitSevenCardStud', 'FixedLimitRazz'):
+            out.append(_j('stud-partial-bring-in', C.stud(stacks, game=game, antes=1, bring_in=2, small=4, big=8), dev_bound=2))
     draws = [(3, 5), (3, 5, 8), (2, 6, 4)]
     for stacks in draws:
         out.append(_j('ND27', C.nt(stacks, game='NoLimitDeuceToSevenLowballSingleDraw'),
